@@ -52,6 +52,7 @@ ETIMEDOUT == -110
 EWOULDBLOCK == -11
 ENOENT == -2
 EAGAIN == -11
+EINTR == -4
 SIGTERM == 15
 SIGKILL == 9
 NOOP == 0  WAITA == 1  TERMINATE == 2  KILL == 3
@@ -176,6 +177,7 @@ RunStop(s) ==
          IF s.ch[h].alive = "zombie" THEN Finish(Reap(s, h))
          ELSE IF Hup(s.ch[h]) THEN [s EXCEPT !.fr.pc = "blocked2", !.fr.until = INF]
          ELSE RunStop([s EXCEPT !.fr.r = ETIMEDOUT, !.fr.i = i + 1, !.fr.pc = "act"])
+    [] s.fr.pc = "intr" -> Finish([s EXCEPT !.fr.r = EINTR])   \* the wait was interrupted: an error other than "timed out" ends the sequence
 
 (* ---- wait ---- *)
 \* a child that closed its exit handle but lives on cannot be told from one that ended: the wait then lasts until it really
@@ -192,6 +194,7 @@ RunWait(s) ==
          IF s.ch[h].alive = "zombie" THEN Done(Reap(s, h))
          ELSE IF Hup(s.ch[h]) THEN Block2(s)
          ELSE Done([s EXCEPT !.fr.r = ETIMEDOUT])
+    [] s.fr.pc = "intr" -> Done([s EXCEPT !.fr.r = EINTR])     \* nothing changes: the caller may simply wait again
 
 (* ---- streams ---- *)
 StreamBuf(s, h, st) == IF st = S_OUT THEN s.buf[h].o ELSE s.buf[h].e
@@ -246,7 +249,8 @@ RunRead(s) ==
       n == s.fr.a[2]
       b == StreamBuf(s, h, st)
   IN
-  IF ~StreamOpen(s, h, st) THEN Done([s EXCEPT !.fr.r = EPIPE])
+  IF s.fr.pc = "intr" THEN Done([s EXCEPT !.fr.r = EINTR])     \* the stream stays open, nothing is lost
+  ELSE IF ~StreamOpen(s, h, st) THEN Done([s EXCEPT !.fr.r = EPIPE])
   ELSE IF b # <<>> /\ n = 0 THEN Done([s EXCEPT !.fr.r = 0])   \* nothing asked for: nothing consumed, nothing closed
   ELSE IF b # <<>> THEN Done(Deliverk(s, h, st, Min(n, BLen(b))))
   ELSE IF StreamWriters(s, h, st) = {} THEN Done([ClosePend(s, h, st) EXCEPT !.fr.r = EPIPE])
@@ -260,7 +264,8 @@ RunWrite(s) ==
       room == PipeCap - s.buf[h].i
       k == Min(n, room)
   IN
-  IF ~s.pend[h].i THEN Done([s EXCEPT !.fr.r = EPIPE])
+  IF s.fr.pc = "intr" THEN Done([s EXCEPT !.fr.r = IF done > 0 THEN done ELSE EINTR])
+  ELSE IF ~s.pend[h].i THEN Done([s EXCEPT !.fr.r = EPIPE])
   ELSE IF InReaders(s, h) = {} THEN
          IF done > 0 THEN Done([s EXCEPT !.fr.r = done])
          ELSE Done([ClosePend(s, h, S_IN) EXCEPT !.fr.r = EPIPE])
@@ -325,6 +330,7 @@ RunPoll(s) ==
                   tdl == IF dls = {} THEN INF ELSE MinOf(dls)
                   until == IF tto = INF THEN tdl ELSE IF tdl = INF THEN tto ELSE Min(tto, tdl)
               IN Block([s EXCEPT !.fr.acts = <<tto, tdl>>], until)
+    [] s.fr.pc = "intr" -> Done([s EXCEPT !.fr.r = EINTR, !.fr.x = {}])
     [] s.fr.pc = "woke" ->
          IF anyReady THEN Done([s EXCEPT !.fr.x = {EventRev(s, srcs)}])
          ELSE LET tto == s.fr.acts[1]
@@ -384,6 +390,7 @@ RunDrain(s) ==
             ELSE LET r2 == SinkRet(s1, 2)
                      s2 == SinkCall(s1, 2, 0, 0)
                  IN IF r2 # 0 THEN EndDrain(s2, r2) ELSE RunDrain([s2 EXCEPT !.fr.pc = "look"])
+    [] s.fr.pc = "intr" -> EndDrain(s, EINTR)
     [] s.fr.pc \in {"look", "woke"} ->
          IF Expired(s, h) THEN EndDrain(s, ETIMEDOUT)
          ELSE IF ~s.pend[h].o /\ ~s.pend[h].e THEN EndDrain(s, 0)
@@ -631,6 +638,13 @@ RunSimple(h, o) ==
 Resume ==
   /\ Wake
   /\ Finish(Run([Bundle EXCEPT !.fr.pc = "woke"]), hist)
+  /\ UNCHANGED ncalls
+
+\* A signal handler of the caller runs while a call is blocked: the blocking system call fails with EINTR.  The library
+\* does not retry; the call returns that error at once (after a partial write: the partial count) and nothing else changes.
+Interrupt ==
+  /\ fr.pc \in {"blocked", "blocked2"} /\ ~Wake
+  /\ Finish(Run([Bundle EXCEPT !.fr.pc = "intr"]), Append(hist, [e |-> "env", k |-> "eintr"]))
   /\ UNCHANGED ncalls
 
 (* ======================= environment ======================= *)
